@@ -33,7 +33,7 @@ def mk(c, side, n, ncols, kinds, floats, keynames, payload):
     cols = {k: [] for k in keynames}
     for i in range(n):
         for k in keynames:
-            v = V.scalar(c, '%s.%s%d' % (side, k, i), kinds, pool = floats, strs = ['a', 'B'])
+            v = V.scalar(c, '%s.%s%d' % (side, k, i), kinds, pool = floats, strs = ['b', 'aa'])
             if isinstance(v, (float, core.SymFloat)) and v.__class__ is float: floats.append(v)
             cols[k].append(v)
     cols[payload] = list(range(n)); cols['v'] = ['%s%d' % (side, i) for i in range(n)]
@@ -106,9 +106,29 @@ def h_cross(nl, nr):
         c.check('xor-with-no-key-is-a-copy', list(x.xor(y, [], [])['lid']) == list(range(nl)))
     return h
 
+def h_cross_shared(nl, nr, mode):
+    """an explicitly empty key list is the cross product even when the tables share column names; the shared columns are combined as the mode prescribes"""
+    def h(c):
+        floats = []
+        x, xc = mk(c, 'L', nl, 1, ['none', 'int'], floats, ['k'], 'lid'); y, yc = mk(c, 'R', nr, 1, ['none', 'int'], floats, ['k'], 'rid')
+        r = x.join(y, []) if mode == 'default' else x.join(y, [], mode = mode)
+        want = [(i, j) for i in range(nl) for j in range(nr)]
+        c.check('empty-key-list-gives-the-full-cross-product-also-with-shared-column-names', (sorted(zip(r['lid'], r['rid'])) if len(r) else []) == want)
+        for p in range(len(r)):
+            i, j = r['lid'][p], r['rid'][p]
+            for col in ('k', 'v'):
+                lv, rv = xc[col][i], yc[col][j]
+                got = r[col][p]
+                if mode == 'default': c.check('shared-columns-paired', isinstance(got, tuple) and len(got) == 2 and got[0] is lv and got[1] is rv)
+                else: c.check('shared-columns-as-mode-prescribes', got is (lv if mode == 'l' else rv))
+    return h
+
 def obligations(tier):
     q = tier == 'quick'
     obs = []
+    for nl, nr in [(1, 1), (2, 1), (2, 2)]:
+        for mode in ('default', 'l', 'r'):
+            obs.append(Ob('cross.shared-names.%dx%d.%s' % (nl, nr, mode), h_cross_shared(nl, nr, mode), setup = setup, budget_s = 300, desc = 'join(y, []) of %d x %d rows sharing the column names k, v: full cross product, mode %s' % (nl, nr, mode)))
     shapes = [(0, 0), (0, 2), (2, 0), (1, 1), (1, 2), (2, 1), (2, 2)] + ([] if q else [(3, 2), (2, 3)])
     LITE = ['none', 'int']
     def add(name, nl, nr, kinds, spell, mode, pins, budget, what):
